@@ -647,3 +647,50 @@ def r15_edge_offset_in_wide_type(ck, P, rid='C12-R15'):
                     ck.violation(R, fn, 'offset added to an edge coordinate at %s' % x.loc(), '%s adds %d to an edge x coordinate in %s before the coordinate is clipped: for x >= %.5f the sum wraps to a negative value, the "right of left" test fails and the span - including its part inside the image - gets no coverage' % (fn, int(cs[0][1]), x.ty, (0x7fffffff - int(cs[0][1]) + 1) / 65536.0), x.loc())
     if n == 0:
         raise AnalysisBroken('%s: no constant added to a pixman_edge_t x coordinate in the edge rasterisers' % rid)
+
+
+def r16_full_destination_box_in_trap_space(ck, P, rid='C12-R16'):
+    """T-AGR between a helper and its caller: pixman_composite_trapezoids adds the destination offset to the box its extents helper returns
+    (the box is in the coordinate space of the trapezoids).  The branch of the helper that answers 'the whole destination' therefore has to
+    subtract that offset from the destination's size - which it can only do if the offset is handed to it."""
+    from .sampling import _lin
+    R = ck.rule(rid, 'the extents helper of pixman_composite_trapezoids returns its box in trapezoid coordinates in both branches: where it stores the destination width / height into the box (operators for which a zero source has an effect), the stored value is width - x_dst (height - y_dst) with the caller\'s destination offset, since the caller composites at x_dst + box.x1: a box (0, 0, width, height) placed at (x_dst, y_dst) leaves the strip left of / above the offset neither cleared nor drawn', floor=2)
+    F = P.fn('pixman_composite_trapezoids', required=False)
+    if F is None:
+        raise AnalysisBroken('%s: pixman_composite_trapezoids not found' % rid)
+    xd = [i for i, (pn, pt) in enumerate(F.params) if pn in ('x_dst', 'y_dst')]
+    helper = None
+    for c in F.calls():
+        g = P.resolve(F, c.callee) if c.callee else None
+        if g is None or g.unit is not F.unit or g.exported:
+            continue
+        if any(x.op == 'store' and (g.last_field(g.path(x.a[1])) or '').startswith('pixman_box32.') and g.v(g.strip_casts(x.a[0])) is not None and g.v(g.strip_casts(x.a[0])).op == 'load' and g.last_field(g.path(g.v(g.strip_casts(x.a[0])).a[0])) in ('bits_image.width', 'bits_image.height') for x in g.insts()) or any(x.op == 'store' and (g.last_field(g.path(x.a[1])) or '').startswith('pixman_box32.') and ('field', 'bits_image.width') in g.atoms(x.a[0]) for x in g.insts()):
+            helper = (g, c)
+    if helper is None or len(xd) != 2:
+        raise AnalysisBroken('%s: the extents helper storing the destination size into a box was not found' % rid)
+    g, call = helper
+    ck.saw(F); ck.saw(g)
+    # which helper parameters receive the caller's offsets
+    recv = {}
+    for k, a in enumerate(call.a):
+        if a[0] == 'a' and a[1] in xd:
+            recv['x' if F.params[a[1]][0] == 'x_dst' else 'y'] = k
+    for x in g.insts():
+        if x.op != 'store':
+            continue
+        lf = g.last_field(g.path(x.a[1])) or ''
+        if lf not in ('pixman_box32.x2', 'pixman_box32.y2'):
+            continue
+        ats = g.atoms(x.a[0])
+        dim = 'bits_image.width' if ('field', 'bits_image.width') in ats else 'bits_image.height' if ('field', 'bits_image.height') in ats else None
+        if dim is None:
+            continue
+        axis = 'x' if lf.endswith('x2') else 'y'
+        lin = _lin(g, x.a[0]) or {}
+        k = recv.get(axis)
+        coef = lin.get(('a', k), 0) if k is not None else 0
+        where = '%s: box.%s2 from the destination %s at %s' % (g.name, axis, dim.split('.')[1], x.loc())
+        if coef == -1:
+            ck.ok(R, where, 'minus the destination offset')
+        else:
+            ck.violation(R, g.name, 'full-destination box.%s2' % axis, '%s stores the destination %s as box.%s2 without subtracting the destination offset (%s), but %s composites the box at %s_dst + box.%s1: for operators where a zero source has an effect and a non-zero offset, the strip of the destination before the offset is neither cleared nor drawn, and the trapezoids are cut at the far side' % (g.name, dim.split('.')[1], axis, 'the helper is not even handed the offset' if k is None else 'coefficient %d' % coef, F.name, axis, axis), x.loc())
